@@ -64,6 +64,8 @@ def build13(term, W):
         sys.modules.pop(DEFMOD, None)
         sys.modules.pop(DEFMOD + ".inner", None)
         return Deferred[f"{DEFMOD}.K{term[1]}"]
+    if k == "DefAbsent":
+        return Deferred["symxabsent.K"]        # a package that is not installed: classes of other packages are simply not its instances
     if k == "DefSub":
         sys.modules.pop(DEFMOD, None)
         sys.modules.pop(DEFMOD + ".inner", None)
@@ -76,6 +78,8 @@ def build13(term, W):
 
 def member13(term, i, W):
     k = term[0]
+    if k == "DefAbsent":
+        return z3.BoolVal(False)
     if k in ("Def", "DefSub"):
         return W.rel(i, term[1])
     if k == "U":
@@ -102,6 +106,8 @@ def member_fresh(term):
 def tstr(term):
     if term[0] == "Def":
         return f"Deferred['{DEFMOD}.K{term[1]}']"
+    if term[0] == "DefAbsent":
+        return "Deferred['symxabsent.K']"
     if term[0] == "DefSub":
         return f"Deferred['{DEFMOD}.inner.K{term[1]}']"
     if term[0] in ("U", "I"):
@@ -143,7 +149,8 @@ def make_run(W, shape, known_active=None):
             try:
                 TT = build13(T, W)
                 if liar:
-                    Liar = type("Liar", (), {"__class__": property(lambda self: W.K[1])})
+                    # (its module's name merely starts like the absent package's)
+                    Liar = type("Liar", (), {"__class__": property(lambda self: W.K[1]), "__module__": "symxabsent_tools.x"})
                     cls, inst = Liar, Liar()
                 else:
                     cls = W.cls(c)
@@ -226,7 +233,7 @@ def universe(n, depth):
     t = K + [("obj",)]
     t += [("U", x, y) for x, y in pairs] + [("I", x, y) for x, y in pairs]
     t += [("Ex", k) for k in K[:2]] + [("Ex", ("obj",))] + [("SS", k) for k in K[:2]] + [("SS", ("obj",))]
-    t += [("HM", "hm"), ("Def", 0), ("Def", 1), ("DefSub", 0), ("DefSub", 1)]
+    t += [("HM", "hm"), ("Def", 0), ("Def", 1), ("DefSub", 0), ("DefSub", 1), ("DefAbsent",)]
     if depth >= 2:
         a, b, c = K[0], K[1], K[2 % n]
         t += [("U", ("I", a, b), c), ("I", ("U", a, b), c), ("U", ("Ex", a), b), ("U", ("Ex", a), ("SS", a)),
